@@ -267,9 +267,30 @@ def explore_c02(rng, tier, res, deep=False):
     sweep(res, PROBE_ENV, cases, "C02", expect_valid=True)
     reuse_after_edit(rng, res, PROBE_ENV, cases[:: max(1, len(cases) // (300 if tier == "quick" and not deep else 3000))], "C02")
     same_query_twice(rng, tier, res)
+    root_under_descent(rng, tier, res)
     import spec_examples
 
     spec_examples.values_examples(res)
+
+
+def root_under_descent(rng, tier, res):
+    """`$` is the query argument wherever the filter stands: under a descendant segment that starts below the root,
+    inside a filter's own relative descendant query, inside function arguments — with sub-values that carry the same
+    member names as the root (so that a wrong `$` gives another answer, not nothing)."""
+    doc = {"k": 1, "max": 10, "a": {"k": 2, "max": 100, "b": [1, 2, {"k": 1, "c": [1, 2]}], "p": 50}, "store": {"max": 100, "items": [{"p": 5}, {"p": 50}, {"p": 500}], "k": 3},
+           "l": [{"k": 1, "v": [1]}, {"k": 2, "v": [2]}]}
+    heads = ["$.a..", "$..", "$.a.b..", "$.store..", "$.l[*]..", "$.l[0]..", "$.a[*]..", "$['a','store']..", "$.l[?@.k]..", "$..a.."]
+    filts = ["?@ == $.k", "?@.p < $.max", "?@.k == $.k", "?$.k", "?@ == $.a.k", "?count($..k) == 4", "?@ < $.max && @ > $.k", "?value($.k) == @", "?@.k != $.store.k", "?$.l[?@.k == 1]"]
+    cases = []
+    for h in heads:
+        for f in filts:
+            cases.append((f"{h}[{f}]", doc))
+    for f in filts:
+        cases.append((f"$[?@..[{f}]]", doc))
+        cases.append((f"$.*[?count(@..[{f}]) > 0]", doc))
+        cases.append((f"$.a[?@..[{f}]]", doc))
+        cases.append((f"$..[?@..[{f}]]", doc))
+    sweep(res, PROBE_ENV, cases, "C02", check_ast_iter=False, expect_valid=True)
 
 
 def same_query_twice(rng, tier, res):
@@ -517,6 +538,20 @@ def explore_c06(rng, tier, res, deep=False):
         cases.append((f"$[?@.a {op} @.b]", [{"a": a, "b": b}]))
         if rng.random() < 0.3:
             cases.append((f"$[?@.b {op} @.a]", [{"a": a, "b": b}]))
+    # long arrays and wide objects (9..14 elements) that differ in exactly one place — a nested container, its content, a
+    # bool against a number, a scalar against a container — at the start, in the middle, at the end
+    for n in (9, 10, 12, 14):
+        base = list(range(n))
+        for pos in (0, n // 2, n - 1):
+            for x, y in (([1], [2]), ({"k": 1}, {"k": 2}), ([True], [1]), ([1], 1), ({"k": []}, {"k": {}}), ([[1, [2]]], [[1, [3]]]), (None, [None]), ({"a": 1, "b": 2}, {"b": 2, "a": 1})):
+                a, b = list(base), list(base)
+                a[pos], b[pos] = x, y
+                for op in ("==", "!=", "<=", ">="):
+                    cases.append((f"$[?@.a {op} @.b]", [{"a": a, "b": b}, {"a": b, "b": a}, {"a": a, "b": gen._copy(a)}]))
+                oa = {"k%d" % i: v for i, v in enumerate(a)}
+                ob = {"k%d" % i: v for i, v in enumerate(b)}
+                cases.append(("$[?@.a == @.b]", [{"a": oa, "b": ob}, {"a": oa, "b": gen._copy(oa)}]))
+                cases.append(("$[?$[0].a != @.b]", [{"a": oa, "b": ob}, {"a": [oa], "b": [ob]}]))
     # every operator with a literal null / true / false (and each other kind) on either side against the SAME value and
     # against others, produced every way: <= and >= hold between equal values of ANY kind, < and > only within numbers/strings
     lit_vals = [("null", None), ("true", True), ("false", False), ("0", 0), ("1", 1), ("''", ""), ("'a'", "a"), ("1.0", 1.0), ("-0.0", -0.0)]
@@ -630,6 +665,12 @@ def explore_c07(rng, tier, res, deep=False):
             cases.append((q, arr))
         for i in set(comps(n)) - {None}:
             cases.append((f"$[{i}]", arr))
+        # several index selectors in one segment (each applies on its own: one that selects nothing does not affect the next)
+        for i, j in itertools.product([-n - 2, -n - 1, -n, -1, 0, 1, n - 1, n, n + 1], repeat=2):
+            cases.append((f"$[{i}, {j}]", arr))
+            if (i + j) % 3 == 0:
+                cases.append((f"$[{i}, {j}, 0, -1]", arr))
+                cases.append((f"$..[{i}, {j}]", [arr, [arr]]))
         # an omitted component next to the explicit value it might be mistaken for (start 0 / end len / step 1), on the
         # same array, in both orders (alternating): the defaults depend on the SIGN of step and are per evaluation
         k = 0
@@ -743,6 +784,7 @@ def explore_c10(rng, tier, res, deep=False):
     cross_env_stage(rng, res, cases[:: max(1, len(cases) // (400 if tier != "thorough" else 4000))])
     callargs_check(rng, tier, res, docs, exprs + tests)
     literal_args_check(res)
+    overlapping_calls(res)
 
 
 def cross_env_stage(rng, res, cases):
@@ -793,6 +835,60 @@ def cross_env_stage(rng, res, cases):
                                    "history": "three environments alive with different signatures under the same names",
                                    "what": "a call ill-typed for this environment's registry was accepted"})
     res.count("cross-environment-cases", len(lines))
+
+
+def overlapping_calls(res):
+    """"At every call": a compiled query whose filter calls functions on `$`-rooted arguments, applied to two values at
+    the same time (two finditer() consumed alternately; a find() in the middle of a finditer()): every call receives the
+    arguments of ITS application; each result judged by the oracle."""
+    env = real.make_env(PROBE_ENV)
+    eenv = real.enc_env(PROBE_ENV)
+    pairs = [("$.rows[?count($.cols[*]) == length(@)]", {"cols": [1, 2], "rows": [[1, 2], [1], [3, 4]]}, {"cols": [1], "rows": [[1, 2], [1], [3, 4]]}),
+             ("$.rows[?vf($.want) == @]", {"want": "x", "rows": ["x", "y", "x"]}, {"want": "y", "rows": ["x", "y", "x"]}),
+             ("$.rows[?value($.k[*]) == @]", {"k": [1], "rows": [1, 2, 1]}, {"k": [2], "rows": [1, 2, 1]}),
+             ("$.rows[?length($.s) == @]", {"s": "ab", "rows": [1, 2, 3, 2]}, {"s": "abc", "rows": [1, 2, 3, 2]}),
+             ("$.rows[?lf($.flag)]", {"flag": 1, "rows": [1, 2, 3]}, {"rows": [1, 2, 3]}),
+             ("$.rows[?count($..x) > @]", {"x": 1, "a": {"x": 2}, "rows": [0, 1, 2, 3]}, {"rows": [0, 1, 2, 3]})]
+    lines, recs = [], []
+    for q, da, db in pairs:
+        c = env.compile(q)
+        for mode in ("alternate", "find-inside"):
+            ga, gb = [], []
+            ia = iter(c.finditer(da))
+            if mode == "alternate":
+                ib = iter(c.finditer(db))
+                la = lb = True
+                while la or lb:
+                    if la:
+                        n = next(ia, None)
+                        la = n is not None
+                        if la:
+                            ga.append(wire.enc_node(n.location, n.value))
+                    if lb:
+                        n = next(ib, None)
+                        lb = n is not None
+                        if lb:
+                            gb.append(wire.enc_node(n.location, n.value))
+            else:
+                n = next(ia, None)
+                if n is not None:
+                    ga.append(wire.enc_node(n.location, n.value))
+                gb = [wire.enc_node(x.location, x.value) for x in c.find(db)]
+                for n in ia:
+                    ga.append(wire.enc_node(n.location, n.value))
+            recs.append((q, da, " ".join(ga), mode))
+            lines.append(f"rfc.query\t{eenv}\t{wire.enc_str(q)}\t{wire.enc_json(da)}")
+            recs.append((q, db, " ".join(gb), mode))
+            lines.append(f"rfc.query\t{eenv}\t{wire.enc_str(q)}\t{wire.enc_json(db)}")
+    for (q, d, got, mode), rep in zip(recs, model.run_batch_parallel(lines)):
+        res.evaluations += 1
+        if rep.split("\t")[0] != "valid":
+            continue
+        want = rep.split("\t", 1)[1] if "\t" in rep else ""
+        if got != want:
+            res.violations.append({"property": "C10", "query": q, "document": d, "observed": got[:300], "expected": want[:300],
+                                   "history": f"one compiled query, two applications under way at once ({mode}); the other value differs in what `$` selects",
+                                   "what": "a function call in one application received arguments of another application"})
 
 
 def literal_args_check(res):
